@@ -30,10 +30,14 @@ CTypes == {"form", "json", "other", "none", "form-with-charset"}
 \*  none | form(t): "level=<text>" | formOther: "lvl=debug" | formMalformed: "level=%zz"
 \*  json(t): {"level":"<text>"} | jsonNull: {"level":null} | jsonMissing: {} | jsonNumber: {"level":1}
 \*  jsonSyntax: {"level": | jsonNotObject: "debug"
+\*  jsonCutShort: the body breaks off with a read error inside the document (always a malformed request)
+\*  jsonThenError(t): a complete {"level":"<text>"} document, then the connection fails. The request may be
+\*     honoured (the document was complete) or rejected (the body could not be read): both are allowed, but
+\*     nothing else is - in particular the NEXT request must not be affected.
 Bodies == {[k |-> "none", t |-> [kind |-> "empty", lvl |-> "info"]]}
-          \cup {[k |-> bk, t |-> t] : bk \in {"form", "json"}, t \in Texts}
+          \cup {[k |-> bk, t |-> t] : bk \in {"form", "json", "jsonThenError"}, t \in Texts}
           \cup {[k |-> bk, t |-> [kind |-> "empty", lvl |-> "info"]] :
-                   bk \in {"formOther", "formMalformed", "jsonNull", "jsonMissing", "jsonNumber", "jsonSyntax", "jsonNotObject"}}
+                   bk \in {"formOther", "formMalformed", "jsonNull", "jsonMissing", "jsonNumber", "jsonSyntax", "jsonNotObject", "jsonCutShort"}}
 Queries == {[k |-> "none", t |-> [kind |-> "empty", lvl |-> "info"]]} \cup {[k |-> "level", t |-> t] : t \in Texts}
 Requests == [m : Methods, ct : CTypes, body : Bodies, q : Queries]
 
@@ -55,13 +59,15 @@ Decode(r) ==
        IF ~fv[1] \/ fv[2].kind = "empty" THEN <<FALSE, "bad">>            \* "must specify logging level"
        ELSE IF Parse(fv[2]) = "bad" THEN <<FALSE, "bad">> ELSE <<TRUE, Parse(fv[2])>>
   ELSE \* every other content type: JSON
-       IF r.body.k = "json" /\ Parse(r.body.t) # "bad" THEN <<TRUE, Parse(r.body.t)>>
+       IF r.body.k \in {"json", "jsonThenError"} /\ Parse(r.body.t) # "bad" THEN <<TRUE, Parse(r.body.t)>>
        ELSE <<FALSE, "bad">>
+\* the outcomes the handler may choose between (one, except after a read error behind a complete document)
+Decodes(r) == IF r.ct # "form" /\ r.body.k = "jsonThenError" THEN {Decode(r), <<FALSE, "bad">>} ELSE {Decode(r)}
 
 Serve ==
   /\ nreq < MaxReqs
-  /\ \E r \in Requests :
-       LET d == Decode(r)
+  /\ \E r \in Requests : \E d \in Decodes(r) :
+       LET dd == d
            newLevel == IF r.m = "PUT" /\ (d[1] \/ (SetBeforeCheck /\ d[2] # "bad")) THEN d[2]
                        ELSE IF r.m = "PUT" /\ SetBeforeCheck /\ ~d[1] THEN "debug" ELSE level
            status == CASE r.m = "GET" -> 200
@@ -79,14 +85,19 @@ Spec == Init /\ [][Serve]_vars
 RefText(r) == IF r.ct = "form"
               THEN (IF r.body.k = "form" THEN <<TRUE, r.body.t>>
                     ELSE IF r.q.k = "level" THEN <<TRUE, r.q.t>> ELSE <<FALSE, r.q.t>>)
-              ELSE (IF r.body.k = "json" THEN <<TRUE, r.body.t>> ELSE <<FALSE, r.body.t>>)
+              ELSE (IF r.body.k \in {"json", "jsonThenError"} THEN <<TRUE, r.body.t>> ELSE <<FALSE, r.body.t>>)
 Names(r) == IF r.m # "PUT" \/ ~RefText(r)[1] THEN "bad"
             ELSE IF r.ct = "form" /\ RefText(r)[2].kind = "empty" THEN "bad"    \* level= with no value
             ELSE Parse(RefText(r)[2])
 Last == h[Len(h)]
+\* a request whose body failed behind a complete document may be honoured or refused
+MayRefuse(r) == r.ct # "form" /\ r.body.k = "jsonThenError"
 ChangeOnlyByValidPut == Len(h) > 0 =>
     /\ (Last.after # Last.before => Last.req.m = "PUT" /\ Names(Last.req) = Last.after)
-    /\ (Last.req.m = "PUT" /\ Names(Last.req) # "bad" => Last.after = Names(Last.req) /\ Last.status = 200)
+    /\ (Last.req.m = "PUT" /\ Names(Last.req) # "bad" /\ ~MayRefuse(Last.req) => Last.after = Names(Last.req) /\ Last.status = 200)
+    /\ (Last.req.m = "PUT" /\ Names(Last.req) # "bad" /\ MayRefuse(Last.req) =>
+            \/ Last.after = Names(Last.req) /\ Last.status = 200
+            \/ Last.after = Last.before /\ Last.status >= 400 /\ Last.status < 500)
 ErrorsAre4xx == Len(h) > 0 =>
     /\ (Last.req.m \notin {"GET", "PUT"} => Last.status >= 400 /\ Last.status < 500 /\ Last.after = Last.before)
     /\ (Last.req.m = "PUT" /\ Names(Last.req) = "bad" => Last.status >= 400 /\ Last.status < 500 /\ Last.after = Last.before)
